@@ -56,9 +56,15 @@ class Harness:
         self.recursion = recursion
 
 
+EMPTY_RS = os.path.join(VERIF, "harness", "empty.rs")
+
+
 class Suite:
     def __init__(self, prop, source, harnesses, features=(), clibs=(), stubs=(),
-                 functions=(), assumptions=(), toolchain_flags=()):
+                 functions=(), assumptions=(), toolchain_flags=(), paths=None, argon2_source=None):
+        self.paths = paths or {}            # harness name -> full module path, when not in crate::verif_harness
+        self.argon2_source = argon2_source  # Rust text compiled as crate::argon2::verif_harness_argon2
+        self.argon2_file = None
         self.prop = prop
         self.source = source          # Rust text of the harness module
         self.harnesses = harnesses
@@ -128,13 +134,14 @@ def _codegen_chunk(scratch, suite, hfile, names, idx, logdir):
     env = dict(os.environ)
     env.update({
         "DRYOC_VERIF_HARNESS": hfile,
+        "DRYOC_VERIF_HARNESS_ARGON2": (suite.argon2_file if getattr(suite, "argon2_file", None) else EMPTY_RS),
         "RUSTFLAGS": "--cfg dryoc_verif --cfg chacha20_force_soft -A warnings",
         "CARGO_NET_OFFLINE": "true",
     })
     cmd = ["cargo", "kani", "-Z", "stubbing", "--only-codegen", "--no-assertion-reach-checks",
            "--target-dir", target]
     for n in names:
-        cmd += ["--harness", "verif_harness::" + n]
+        cmd += ["--harness", suite.paths.get(n, "verif_harness::" + n)]
     cmd += ["--exact"]
     if suite.clibs:
         cmd[2:2] = ["-Z", "c-ffi"]
@@ -155,7 +162,8 @@ def _codegen_chunk(scratch, suite, hfile, names, idx, logdir):
                     res[m.group(1)] = os.path.join(root, fn)
     byname = {}
     for n in names:
-        key = "13verif_harness%d%s" % (len(n), n)
+        mod = suite.paths.get(n, "verif_harness::" + n).split("::")[-2]
+        key = "%d%s%d%s" % (len(mod), mod, len(n), n)
         hits = [(m, p) for m, p in res.items() if m.endswith(key)]
         if len(hits) != 1:
             raise BuildError("harness %s: %d symtab files" % (n, len(hits)), out)
@@ -170,6 +178,10 @@ def kani_codegen(scratch, suite, logdir):
     hfile = os.path.join(scratch.dir, "harness_%s.rs" % suite.prop)
     with open(hfile, "w") as f:
         f.write(suite.source)
+    if suite.argon2_source:
+        suite.argon2_file = os.path.join(scratch.dir, "harness_%s_argon2.rs" % suite.prop)
+        with open(suite.argon2_file, "w") as f:
+            f.write(suite.argon2_source)
     names = [h.name for h in suite.harnesses]
     per = int(os.environ.get("VERIF_CODEGEN_CHUNK", "28"))
     nchunks = max(1, min(4, (len(names) + per - 1) // per))
